@@ -15,7 +15,7 @@
 (* entry = v * 256 + f (v may be 16 bits wide for RLD/RRD: a' * 256 + m').  *)
 (* index = (args in row-major order) * 2^|rbits| + compressed read bits.    *)
 (***************************************************************************)
-EXTENDS Z80Alu, TLC, Json, IOUtils
+EXTENDS Z80Alu, Flags, TLC, Json, IOUtils
 
 OutDir == IOEnv.OUTDIR
 Part == IOEnv.PART
@@ -120,8 +120,24 @@ Spot16(dummy) ==
                 IN <<a, x, fin, ad.v, ad.f, ac.v, ac.f, sb.v, sb.f>>]
   IN JsonSerialize(OutDir \o "/SPOT16.json", [name |-> "SPOT16", data |-> pts])
 
+\* C16: accessor tables (index = mask * 256 + F) and laws tying the set-based
+\* definitions of Flags.tla to the bitwise ones
+FlagLaws == \A f \in Byte, m \in Byte :
+   /\ GetFlag(f, m) = ((f & m) # 0) /\ SetFlag(f, m) = (f | m) /\ ResetFlag(f, m) = (f & (255 - m))
+   /\ ResetFlag(SetFlag(f, m), m) = ResetFlag(f, m) /\ GetFlag(SetFlag(f, m), m) = (m # 0)
+FlagsPart(dummy) ==
+  /\ FlagLaws
+  /\ \A w \in Word : RegU16(RegHi(w), RegLo(w)) = w /\ RegHi(w) \in Byte /\ RegLo(w) \in Byte
+  /\ JsonSerialize(OutDir \o "/FLAGS.json",
+        [name |-> "FLAGS", consts |-> FlagConst,
+         get |-> [i \in 1 .. 65536 |-> IF GetFlag((i - 1) % 256, (i - 1) \div 256) THEN 1 ELSE 0],
+         set |-> [i \in 1 .. 65536 |-> SetFlag((i - 1) % 256, (i - 1) \div 256)],
+         res |-> [i \in 1 .. 65536 |-> ResetFlag((i - 1) % 256, (i - 1) \div 256)],
+         hi |-> [i \in 1 .. 65536 |-> RegHi(i - 1)], lo |-> [i \in 1 .. 65536 |-> RegLo(i - 1)]])
+
 ASSUME
   CASE Part = "small" -> Small(0)
+    [] Part = "flags" -> FlagsPart(0)
     [] Part = "rld" -> Rld(0)
     [] Part = "spot16" -> Spot16(0)
     [] Part \in {"alu0", "alu1", "alu2", "alu3", "alu4", "alu5", "alu6", "alu7"} ->
